@@ -202,6 +202,8 @@ def file_trace(kinds, rows, sep, esc, second_pass=False, at_completion=False):
     dtype = [(n, KINDS[k]) for n, k in zip(names, kinds)]
     with C.scratch('rxsci-verif.c18.') as d:
         path = os.path.join(d, 'rows.csv')
+        with open(path, 'w') as f:         # the target exists already: an earlier export
+            f.write('stale,file\n' + 'x,1\n' * 7)
         werr = []
         got, err = [], []
         parser = csv.create_line_parser(dtype=dtype, separator=sep, escapechar=esc)
@@ -588,6 +590,10 @@ def main(tier, replay):
             clean = rng.random() < 0.4
             kinds, rows = rnd_rows(rng, sep, esc, clean, rng.choice([1, 1, 2, 3, 5]))
             traces.append(mem_trace(kinds, rows, sep, esc, form=n % 2))
+        # small files, the empty one included (the target exists already: it must be replaced)
+        for n_rows in (0, 1, 2):
+            kinds, rows = rnd_rows(rng, ',', '\\', True, max(n_rows, 1))
+            traces.append(file_trace(kinds, rows[:n_rows], ',', '\\', at_completion=(n_rows == 1)))
         nfiles = 6 if thorough else 2
         file_infos = []
         for n in range(nfiles):
